@@ -20,7 +20,8 @@ ASSUMPTIONS = ['sessions start and warm-up lengths are aligned to every route ti
                'volume sums are compared with relative tolerance 1e-9, everything else exactly',
                'inside a fill hook the newest 1m row may be the partial candle (same timestamp and open, close = fill price)']
 MIN_OBS = {'array_comparisons': 10000, 'forming_comparisons': 2000, 'comparisons_after_midwindow_fill': 300,
-           'fast_comparisons': 2000, 'stored_1m_checks': 2000, 'helper_cases': 200}
+           'fast_comparisons': 2000, 'stored_1m_checks': 2000, 'helper_cases': 200,
+           'callbacks_of_market_orders_run_inside_a_chunk': 100}
 
 CTX = {}
 
@@ -62,6 +63,9 @@ def monitor(strategy, hook, ev):
     from ..tracer import TR
     fill_hook = TR.in_match > 0          # hooks that run while the matching of a minute/chunk is in progress
     fast = ctx['fast']
+    if fast and fill_hook and hook == 'on_increased_position' and strategy.s.get('on_reduced') == 'add_market' \
+            and strategy.timeframe != '1m':
+        c('callbacks_of_market_orders_run_inside_a_chunk')
     seen = set()
     for r in router.all_formatted_routes:
         sym, tf = r['symbol'], r['timeframe']
@@ -216,6 +220,17 @@ def run_job(job):
                                   data_only=(job['i'] % 4 == 1))
     if job.get('no_warm'):
         spec['warmup'] = 0
+    if job.get('cb_market'):
+        # fast simulator, multi-row exits, and the callback of every reducing fill scales back in with a MARKET order: that
+        # order runs at the end of the minute of the fill, in the middle of a chunk, and its own callbacks read candles too
+        spec['fast'] = True
+        spec['config'] = {'starting_balance': 50000, 'fee': 0.001, 'type': 'futures', 'futures_leverage': 10,
+                          'futures_leverage_mode': 'cross'}
+        for r in spec['routes']:
+            if r['timeframe'] == '1m':
+                r['timeframe'] = rng.choice(['3m', '5m', '15m'])
+            r['script'].update(on_reduced='add_market', sl_points=3, tp_points=2, sl=0.003, tp=0.004, p_enter=0.3,
+                               exits_in='open', sides='both' if r['script'].get('sides') != 'long' else 'long')
     # lengths not multiples of the timeframe are wanted; warm-up must be aligned (specgen does that)
     allc = session.build_candles(spec)
     w = spec['warmup']
@@ -279,7 +294,7 @@ def make_jobs(tier, seed):
     rng = random.Random(70000 + seed)
     n = 260 if tier == 'quick' else 5000
     jobs = [{'kind': 'session', 'seed': rng.randrange(1 << 30), 'i': i, 'big': (i % 10 == 9),
-             'no_warm': (i % 5 == 0), 'logs': (i % 6 == 2)} for i in range(n)]
+             'no_warm': (i % 5 == 0), 'logs': (i % 6 == 2), 'cb_market': (i % 5 == 3)} for i in range(n)]
     for i in range(4 if tier == 'quick' else 40):
         jobs.append({'kind': 'helpers', 'seed': rng.randrange(1 << 30), 'n': 80})
     return jobs
